@@ -14,20 +14,24 @@ class RunResult:
         self.ctx_diff = None
 
 
-def run_real(program, mode, opts=None, budget=None, tick=None, keep_state=False):
+def run_real(program, mode, opts=None, budget=None, tick=None, keep_state=False, extra_ctx=None):
     """Render the page with the real library under `mode`. Returns RunResult."""
     from django.template import Context, Template
 
     if not keep_state:
         env.reset()
     res = RunResult()
+    from vf import vf_tags
+
     rec = pg.Recorder(budget or 2000)
     rec.tick = tick
     res.rec = rec
+    vf_tags.TICK["fn"] = rec.visit if tick is not None else None
     with env.components_settings(context_behavior=mode):
         try:
             classes, src = pg.build(program, rec, opts)
             ctx = dict(program["page"]["ctx"])
+            ctx.update(extra_ctx or {})
             if opts and opts.get("dynamic") == "class" or "cls_" in src:
                 for name, cls in classes.items():
                     ctx["cls_%s" % name] = cls
@@ -49,6 +53,10 @@ def run_real(program, mode, opts=None, budget=None, tick=None, keep_state=False)
         except Exception as e:  # noqa
             res.exc = e
     res.residue = {k: v for k, v in env.registry_sizes().items() if v}
+    # the generated classes (still registered) close over the recorder: do not let it keep the ticker
+    # (and through it an injected exception with its traceback) alive
+    rec.tick = None
+    vf_tags.TICK["fn"] = None
     return res
 
 
